@@ -93,6 +93,13 @@ func LoadEngine(repoDir string, patterns []string, depsDir string) (*Engine, err
 				if fd, ok := d.(*ast.FuncDecl); ok {
 					if obj, ok := p.TypesInfo.Defs[fd.Name].(*types.Func); ok {
 						e.FuncDecls[obj] = fd
+						// every declared function of the repository is addressable by a contract, also an unexported method
+						// that is only called from a package this run did not load (ssautil.AllFunctions lists reachable ones)
+						if fn := prog.FuncValue(obj); fn != nil && fn.TypeParams().Len() == 0 {
+							if _, have := e.AllFuncs[fn.String()]; !have {
+								e.AllFuncs[fn.String()] = fn
+							}
+						}
 					}
 				}
 			}
@@ -164,6 +171,17 @@ func LoadEngine(repoDir string, patterns []string, depsDir string) (*Engine, err
 			}
 			for _, c := range cf.Contracts {
 				c.Trusted = true
+				if old := e.Contracts[c.Key]; old != nil && strings.HasPrefix(old.PkgPath, repoModule) && !strings.HasSuffix(old.File, ".contract") {
+					// H11: a repository package's own (trusted) model of a library function stays the contract of that function
+					// in that package's verification context; everywhere else the dependency contract applies
+					if e.CtxContracts == nil {
+						e.CtxContracts = map[string]map[string]*Contract{}
+					}
+					if e.CtxContracts[c.Key] == nil {
+						e.CtxContracts[c.Key] = map[string]*Contract{}
+					}
+					e.CtxContracts[c.Key][old.PkgPath] = old
+				}
 				e.Contracts[c.Key] = c
 			}
 		}
